@@ -203,4 +203,17 @@ CHECKS["C12"] = {
   "technique": "Coq proof (explicit state machine on abstract shape descriptors; case analysis + induction over op histories) + model-vs-code correspondence by vm_compute on nat/bool + implementation oracle",
 }
 
+CHECKS["C11"] = {
+  "text": "Machine-checked theorems (coq/props/C11.v, closed under the global context, for every choice of the numeric kernels) about a state machine of Node/Model training (fixed/learned sides, _buffers, _X/_Y with an explicit "
+          "`_X is _Y` flag, trainable/fitted, partial_fit/fit/train/run/freeze, Model.fit/Model.train): inference changes nothing but state; any operation, whatever its outcome, changes only the learned side of trainable targets, "
+          "lifted by induction to all histories (fixed side of every node, and every parameter of a reservoir or frozen readout, identical forever); every completed fit, and in HEAD every failed fit (bad sequence at any index k, "
+          "or the learning rule raising), ends with clean buffers, so for any two histories ending in a fit the next fit on the same data gives the same result, equal to a fresh node's for Ridge; vm_compute witnesses refute this "
+          "for the three pre-fix trees and for the open `_X = _Y = []` aliasing. The model runs at Q against real Ridge/RLS/LMS/ScikitLearnNode/custom default-buffer nodes and reservoir>>readout models on every run (parameter "
+          "hashes, buffer flags, exception class, Wout/bias after each op); an independent oracle byte-compares parameters and compares refits with fresh fits.",
+  "note": "Single-stage models without feedback; IPReservoir and memmap file removal not covered; scikit-learn estimator values opaque (outcome only); features entering readouts in models obtained by running a copy of the real "
+          "reservoir; open finding refit:XY-aliased-default-buffers reported as KNOWN-FINDING; finding failed-fit:backward-raised:sums-kept was discovered by this check (fixed 36d5a16). Trusted: Coq kernel, coq/model/TrainSem.v as "
+          "a rendering of node.py/model.py, harness tools/props/c11.py.",
+  "technique": "Coq proof (frame lemmas per operation, induction over operation histories; session isolation through a buffer-equality relation) + Q-executed model vs real objects after every operation (hashes, flags, exact change pattern, Wout/bias at 1e-9) + direct refit-vs-fresh oracle",
+}
+
 NOT_YET = {}
